@@ -202,6 +202,13 @@ pub fn run_case(ctx: &mut Ctx, case: &Value, c09: bool) {
         (craft_kb(Some("kb+jwt"), kb_alg.clone(), &without("sd_hash"), 1), "crafted:sd_hash-missing", true, false),
         (craft_kb(Some("kb+jwt"), kb_alg.clone(), &with("sd_hash", json!(5)), 1), "crafted:sd_hash-non-string", true, false),
         (craft_kb(Some("kb+jwt"), kb_alg.clone(), &with("sd_hash", json!([good_hash])), 1), "crafted:sd_hash-array", true, false),
+        // the right hash, but not all of it / more than it (a comparison that stops at the shorter string)
+        (craft_kb(Some("kb+jwt"), kb_alg.clone(), &with("sd_hash", json!("")), 1), "crafted:sd_hash-empty", true, false),
+        (craft_kb(Some("kb+jwt"), kb_alg.clone(), &with("sd_hash", json!(good_hash[..good_hash.len() / 2].to_string())), 1), "crafted:sd_hash-truncated", true, false),
+        (craft_kb(Some("kb+jwt"), kb_alg.clone(), &with("sd_hash", json!(good_hash[..good_hash.len() - 1].to_string())), 1), "crafted:sd_hash-one-short", true, false),
+        (craft_kb(Some("kb+jwt"), kb_alg.clone(), &with("sd_hash", json!(format!("{}=", good_hash))), 1), "crafted:sd_hash-extended", true, false),
+        (craft_kb(Some("kb+jwt"), kb_alg.clone(), &with("sd_hash", json!(format!("{}{}", good_hash, good_hash))), 1), "crafted:sd_hash-doubled", true, false),
+        (craft_kb(Some("kb+jwt"), kb_alg.clone(), &with("sd_hash", json!(good_hash.to_uppercase())), 1), "crafted:sd_hash-case-folded", true, good_hash.to_uppercase() == good_hash),
         (craft_kb(Some("kb+jwt"), kb_alg.clone(), &with("aud", json!("https://other.example")), 1), "crafted:aud-other", false, false),
         (craft_kb(Some("kb+jwt"), kb_alg.clone(), &without("aud"), 1), "crafted:aud-missing", false, false),
     ];
@@ -220,7 +227,7 @@ pub fn run(ctx: &mut Ctx, replay: Option<&Value>, c09: bool) {
     ctx.report.rule = if c09 {
         "bound tokens (own issuer, and reference issuer with sha-256/384/512) x redaction lists x RS/PS 256/384/512 x 3 build() calls per holder: KB-JWT header/claims decoded by the harness, sd_hash recomputed by the Lean driver over P[..=last '~'], signature checked through decode and through verify_kb and refused under another key, iat within the call window, nonces 32 alphanumerics and pairwise distinct, disclosure part identical across builds; holder model fed the harvested nonce/iat; non-trivial = distinct (tree, redaction list, algorithm)".to_string()
     } else {
-        "bound (85%) and unbound tokens, own and reference-issued; per bound token: holder refuses to build without key binding; genuine presentation x policies (aud / no aud / none / other aud / other alg); KB stripped / swapped; every edit of the disclosure list after binding (remove, reorder, replace, duplicate, add withheld, add foreign); 16 harness-crafted KB-JWTs with exactly one defect each (other key, other alg, typ, sd_hash over other strings / other hash alg / missing / non-string, aud); accept iff no defect; non-trivial = distinct (tree, redaction list, algorithm)".to_string()
+        "bound (85%) and unbound tokens, own and reference-issued; per bound token: holder refuses to build without key binding; genuine presentation x policies (aud / no aud / none / other aud / other alg); KB stripped / swapped; every edit of the disclosure list after binding (remove, reorder, replace, duplicate, add withheld, add foreign); 22 harness-crafted KB-JWTs with exactly one defect each (other key, other alg, typ, sd_hash over other strings / other hash alg / missing / non-string / empty / truncated / extended / case-folded, aud); accept iff no defect; non-trivial = distinct (tree, redaction list, algorithm)".to_string()
     };
     if let Some(case) = replay {
         run_case(ctx, case, c09);
